@@ -425,6 +425,25 @@ func RunCase(cs Case, trace func(any)) Result {
 	wedged := false
 	stoppedEarly := false
 	heartbeatStalled := false
+	var samplerMu sync.Mutex
+	var samplerStates []pipeline.VerifStreamState
+	samplerStop := make(chan struct{})
+	defer close(samplerStop)
+	go func() {
+		for {
+			select {
+			case <-samplerStop:
+				return
+			default:
+			}
+			st := p.VerifStreamerState()
+			samplerMu.Lock()
+			samplerStates = st
+			samplerMu.Unlock()
+			time.Sleep(15 * time.Millisecond)
+		}
+	}()
+	lastSeenTick, lastTickWall := int64(-1), time.Now()
 	starved := map[string]int64{}
 	starvedViol := ""
 	lastStarveSample, lastStarveWall := int64(-1), time.Now()
@@ -449,7 +468,12 @@ func RunCase(cs Case, trace func(any)) Result {
 			idle := p.VerifActiveProcs() < p.VerifProcCount()
 			seenNow := map[string]bool{}
 			if idle {
-				for _, st := range p.VerifStreamerState() {
+				// the snapshot is taken by a sampler goroutine: it takes the streamer's
+				// locks and must not be able to hang this loop when they are deadlocked
+				samplerMu.Lock()
+				states := samplerStates
+				samplerMu.Unlock()
+				for _, st := range states {
 					if st.InCharged && st.HasFirst && !st.Attached {
 						k := fmt.Sprintf("%d/%s/%d", st.SourceID, st.Name, st.AwaySeq)
 						seenNow[k] = true
@@ -494,7 +518,10 @@ func RunCase(cs Case, trace func(any)) Result {
 				break
 			}
 		}
-		if time.Since(lastWallProgress) > 20*time.Second && tick == lastProgressTick {
+		if tick != lastSeenTick {
+			lastSeenTick, lastTickWall = tick, time.Now()
+		}
+		if time.Since(lastWallProgress) > 20*time.Second && time.Since(lastTickWall) > 20*time.Second {
 			// the heartbeat sleeps 200 ms per tick: 20 s without a single tick is
 			// not load, the heartbeat goroutine itself is stuck
 			heartbeatStalled = true
